@@ -87,6 +87,30 @@ func EnumerateTypes(c *core.Ctx, depth int) ([]*Type, error) {
 	return ts, nil
 }
 
+// EnumerateMethodTypes lets TLC enumerate MethTypes(depth): the types with a
+// component that declares its own Equal / Compare / Hash methods.
+func EnumerateMethodTypes(c *core.Ctx, depth int) ([]*Type, error) {
+	out := filepath.Join(c.Work, fmt.Sprintf("enummeth%d.ndjson", depth))
+	if err := runCases(c, map[string]string{"VERIF_ENUM_METH": fmt.Sprint(depth), "VERIF_OUT": out}); err != nil {
+		return nil, err
+	}
+	lines, err := readLines(out)
+	if err != nil {
+		return nil, err
+	}
+	var ts []*Type
+	for _, l := range lines {
+		var r struct {
+			T *Type `json:"t"`
+		}
+		if err := json.Unmarshal(l, &r); err != nil {
+			return nil, fmt.Errorf("enumeration line: %v", err)
+		}
+		ts = append(ts, r.T)
+	}
+	return ts, nil
+}
+
 // ExportCases lets TLC compute Pool(t) for the given types (ids[i] names
 // types[i]) and returns the cases, the leaf table and the path of the export.
 // A type TLC does not accept as well-formed is an error of the harness.
